@@ -12,6 +12,10 @@
   (beyond it `fragment` hands the message out unfragmented: `fragment_unfragmented` covers
   `data.length ≤ size`, and the > 65535 case is the third branch of `fragment` itself);
   `44 ∉ data`: an encoded OTR message ("?OTR:" base64 ".") contains no comma (Proofs.B64).
+  Repaired receiver: index and total are read by `strconv.ParseUint(s, 10, 16)` (`bytesToUint16_range`,
+  `bytesToUint16_signed_rejected`, `bytesToUint16_too_big`: digits only, no sign, no reduction modulo
+  2^16), and nothing may follow the comma that ends the piece (`parseFragment_trailing_rejected`,
+  `parseFragment_eq_some_iff`, `parseFragment_some`).
 -/
 import Proofs.Frag
 namespace Otr.C14
@@ -35,6 +39,26 @@ theorem c14_bounded (v : Version) (its itr : Nat) (data : Bytes) (size : Nat)
 
 theorem bytesToUint16_fmt05d (k : Nat) (h : k ≤ 65535) : bytesToUint16 (fmt05d k) = some k := by
   exact Otr.bytesToUint16_fmt05d k h
+
+/-- repaired number parser (`strconv.ParseUint(s, 10, 16)`): digits only, value within 16 bits -/
+theorem bytesToUint16_range : type_of% @Otr.bytesToUint16_range := @Otr.bytesToUint16_range
+
+theorem bytesToUint16_eq_some_iff : type_of% @Otr.bytesToUint16_eq_some_iff := @Otr.bytesToUint16_eq_some_iff
+
+theorem bytesToUint16_signed_rejected : type_of% @Otr.bytesToUint16_signed_rejected := @Otr.bytesToUint16_signed_rejected
+
+theorem bytesToUint16_too_big : type_of% @Otr.bytesToUint16_too_big := @Otr.bytesToUint16_too_big
+
+/-- repaired fragment parser: `k,n,piece,` and nothing after the last comma -/
+theorem parseFragment_body : type_of% @Otr.parseFragment_body := @Otr.parseFragment_body
+
+theorem parseFragment_trailing_rejected : type_of% @Otr.parseFragment_trailing_rejected := @Otr.parseFragment_trailing_rejected
+
+theorem parseFragment_trailing_rejected_body : type_of% @Otr.parseFragment_trailing_rejected_body := @Otr.parseFragment_trailing_rejected_body
+
+theorem parseFragment_eq_some_iff : type_of% @Otr.parseFragment_eq_some_iff := @Otr.parseFragment_eq_some_iff
+
+theorem parseFragment_some : type_of% @Otr.parseFragment_some := @Otr.parseFragment_some
 
 theorem fmt05d_no_comma (k : Nat) (h : k < 100000) : (44 : UInt8) ∉ fmt05d k := by
   exact Otr.fmt05d_no_comma k h
@@ -96,6 +120,10 @@ theorem deliverStep_not_finished (st : FragCtx × List Bytes) (a : Arrival) :
 /-! non-vacuity: concrete instances (hypotheses discharged by evaluation) -/
 example : ∀ p ∈ fragment .v3 0x101 0x202 (List.replicate 60 65) 50, p.length ≤ 50 :=
   c14_bounded .v3 0x101 0x202 _ 50 (by decide) (by decide) (by decide) (by decide)
+-- a signed index, a total above 65535 and bytes after the last comma are all rejected now
+example : parseFragment (strBytes "+1,00002,ab,") = none ∧ parseFragment (strBytes "00001,65537,ab,") = none ∧
+    parseFragment (strBytes "00001,00002,ab,x") = none ∧
+    parseFragment (strBytes "00001,00002,ab,") = some (strBytes "ab", 1, 2) := by decide
 example : ((fragment .v2 0 0 (List.replicate 40 66) 25).foldl (reassembleStep .v2) FragCtx.empty).frag
     = List.replicate 40 66 :=
   (c14_lossless .v2 0 0 _ 25 (by decide) (by decide) (by decide) (by decide) (by decide) (by decide)).2.1
